@@ -132,6 +132,7 @@ package allocator
 //@         && (forall p Port :: HasPort(al, p) ==> !HasPort(a.allocated[s], p))
 
 //@ func (*Allocator).assign
+//@   modifies map[string]*alloc, map[Port]string, map[string]bool, map[string]int, map[string]PoolCounters, fresh *ipaddr.Prefix, fresh *ipaddr.Cursor, fresh *ipaddr.Position, fresh []ipaddr.Prefix, gint("cursor.pos"), fresh []string, fresh []interface{}
 //@   requires Inv(a) && a.countersChangedCallback != nil && WFAlloc(alloc) && alloc.pool in a.pools.ByName && SafeFor(a, svc, alloc)
 //@   requires forall s string :: a.allocated[s] != alloc || s == svc
 //@   ensures Inv(a)
@@ -195,7 +196,7 @@ package allocator
 //@ func field:go.universe.tf/metallb/internal/allocator.Allocator.countersChangedCallback
 //@   trusted
 // PoolCIDRsOK: data invariant of a parsed pool: every CIDR is present and has a canonical 32- or 128-bit mask.
-//@ pred PoolCIDRsOK(p *config.Pool) := p != nil && (forall i int :: 0 <= i && i < len(p.CIDR) ==>
+//@ opaque pred PoolCIDRsOK(p *config.Pool) := p != nil && (forall i int :: 0 <= i && i < len(p.CIDR) ==>
 //@     p.CIDR[i] != nil && (net.maskBits(p.CIDR[i].Mask) == 32 || net.maskBits(p.CIDR[i].Mask) == 128) && net.netValid(*p.CIDR[i]))
 //@ func saturatingAdd
 //@   check overflow
@@ -214,6 +215,7 @@ package allocator
 
 //@ func (*Allocator).Unassign
 //@   requires Inv(a) && a.countersChangedCallback != nil
+//@   modifies map[string]*alloc, map[Port]string, map[string]bool, map[string]int, map[string]PoolCounters, fresh *ipaddr.Prefix, fresh *ipaddr.Cursor, fresh *ipaddr.Position, fresh []ipaddr.Prefix, gint("cursor.pos"), fresh []string, fresh []interface{}
 //@   ensures Inv(a)
 //@   ensures a.allocated[svc] == nil
 //@   ensures forall s string :: s != svc ==> a.allocated[s] == old(a.allocated[s])
@@ -328,7 +330,12 @@ package allocator
 //@     && len(r.ports) == len(ports) && (forall k int :: 0 <= k && k < len(ports) ==> r.ports[k] == ports[k])
 
 //@ func (*Allocator).Assign
-//@   requires Inv(a) && a.countersChangedCallback != nil && svc != nil && PoolsKeyedOK(a.pools.ByName) && PortsOK(ports) && len(ips) >= 1
+//@   modifies map[string]*alloc, map[Port]string, map[string]bool, map[string]int, map[string]PoolCounters, fresh *ipaddr.Prefix, fresh *ipaddr.Cursor, fresh *ipaddr.Position, fresh []ipaddr.Prefix, gint("cursor.pos"), fresh []string, fresh []interface{}, fresh *alloc, fresh []Port, fresh *key
+//@   requires [inv] Inv(a)
+//@   requires [cb] a.countersChangedCallback != nil && svc != nil
+//@   requires [pools] PoolsKeyedOK(a.pools.ByName)
+//@   requires [ports] PortsOK(ports)
+//@   requires [ips] len(ips) >= 1
 //@   ensures Inv(a)
 //@   ensures [unchangedOnError] result != nil ==> (forall s string :: a.allocated[s] == old(a.allocated[s]))
 //@   ensures [others] forall s string :: s != svcKey ==> a.allocated[s] == old(a.allocated[s])
@@ -505,10 +512,110 @@ package allocator
 //@ pred PoolsSame(a *Allocator) := true
 
 //@ func (*Allocator).allocateFromPools
+//@   modifies map[string]*alloc, map[Port]string, map[string]bool, map[string]int, map[string]PoolCounters, fresh *ipaddr.Prefix, fresh *ipaddr.Cursor, fresh *ipaddr.Position, fresh []ipaddr.Prefix, gint("cursor.pos"), fresh []string, fresh []interface{}, fresh *alloc, fresh []Port, fresh *key, fresh *Allocation, fresh []net.IP
 //@   requires Inv(a) && a.countersChangedCallback != nil && svc != nil && PoolsKeyedOK(a.pools.ByName) && PortsOK(ports) && PoolListOK(pools)
 //@   ensures Inv(a)
 //@   ensures [others] forall s string :: s != svcKey ==> a.allocated[s] == old(a.allocated[s])
 //@   ensures [unchangedOnError] result1 != nil ==> result0 == nil && (forall s string :: a.allocated[s] == old(a.allocated[s]))
 //@   ensures [assigned] result1 == nil ==> AssignedOK(a, svcKey, svc, result0, ports, sharingKey, backendKey)
 //@   ensures [fromList] result1 == nil ==> (exists i int :: 0 <= i && i < len(pools) && (forall k int :: 0 <= k && k < len(result0) ==> InCIDRs(pools[i], result0[k])))
+//@   ensures [poolsSame] a.pools == old(a.pools) && (forall n string :: (n in a.pools.ByName) == old(n in a.pools.ByName) && a.pools.ByName[n] == old(a.pools.ByName[n]))
+
+// ---- pinned pools: sorted by ascending priority number, 0 (no priority) last ----
+// PrioBefore(p, q): p must come before q: p has a priority and q has none or a larger number.
+//@ pred PrioBefore(p *config.Pool, q *config.Pool) :=
+//@     p.ServiceAllocations.Priority > 0 && (q.ServiceAllocations.Priority == 0 || p.ServiceAllocations.Priority < q.ServiceAllocations.Priority)
+// the comparator as written in the code (it answers true for two pools without priority; sort.Slice tolerates that
+// only on a strict weak order, so the contract states the relation the result is sorted by: PrioBefore)
+//@ func sortPools$1
+//@   requires 0 <= i && i < len(pools) && 0 <= j && j < len(pools) && pools[i] != nil && pools[j] != nil
+//@       && pools[i].ServiceAllocations != nil && pools[j].ServiceAllocations != nil
+//@       && pools[i].ServiceAllocations.Priority >= 0 && pools[j].ServiceAllocations.Priority >= 0
+//@   ensures result == LessAsCoded(pools[i], pools[j])
+//@ pred LessAsCoded(p *config.Pool, q *config.Pool) :=
+//@     ite(p.ServiceAllocations.Priority > 0 && q.ServiceAllocations.Priority > 0, p.ServiceAllocations.Priority < q.ServiceAllocations.Priority,
+//@         !(p.ServiceAllocations.Priority == 0 && q.ServiceAllocations.Priority > 0))
+
+//@ pred PinnedOK(pools []*config.Pool) := forall i int :: 0 <= i && i < len(pools) ==>
+//@     pools[i] != nil && pools[i].ServiceAllocations != nil && pools[i].ServiceAllocations.Priority >= 0
+//@ func sortPools
+//@   requires PinnedOK(pools)
+//@   ensures [sorted] forall x int, y int :: 0 <= x && x < y && y < len(pools) ==> !PrioBefore(pools[y], pools[x])
+//@   ensures [perm] forall p *config.Pool :: (p in pools) == old(p in pools)
+//@   call sort.Slice with less(p, q) := PrioBefore(p, q)
+//@   modifies elems(pools)
+
+// PoolsIndexOK: data invariant of the configured pools (config parser): the two pinning indexes name pools
+// that carry a ServiceAllocation with a non-negative priority.
+//@ opaque pred Pinnable(p *config.Pool) := p != nil && p.ServiceAllocations != nil && p.ServiceAllocations.Priority >= 0
+//@ pred PoolsIndexOK(ps *config.Pools) := ps != nil && ps.ByName != nil && PoolsKeyedOK(ps.ByName)
+//@     && (forall ns string, i int :: { ps.ByNamespace[ns][i] } 0 <= i && i < len(ps.ByNamespace[ns]) && (ps.ByNamespace[ns][i] in ps.ByName) ==> Pinnable(ps.ByName[ps.ByNamespace[ns][i]]))
+//@     && (forall i int :: { ps.ByServiceSelector[i] } 0 <= i && i < len(ps.ByServiceSelector) && (ps.ByServiceSelector[i] in ps.ByName) ==> Pinnable(ps.ByName[ps.ByServiceSelector[i]]))
+// Pinned: p is a pool of the configuration that is auto-assignable, pinned and admits svc.
+//@ opaque pred Pinned(a *Allocator, svc *v1.Service, p *config.Pool) :=
+//@     Pinnable(p) && (p.Name in a.pools.ByName) && a.pools.ByName[p.Name] == p && p.AutoAssign && PoolAdmits(p, svc)
+
+//@ func (*Allocator).pinnedPoolsForService
+//@   requires a != nil && PoolsIndexOK(a.pools)
+//@   ensures svc == nil ==> result == nil
+//@   ensures [pinned] forall i int :: 0 <= i && i < len(result) ==> Pinned(a, svc, result[i])
+//@   ensures [sorted] forall x int, y int :: 0 <= x && x < y && y < len(result) ==> !PrioBefore(result[y], result[x])
+//@   ensures result == nil || fresh(result)
+//@   modifies fresh []*config.Pool
+//@   loop 1 invariant svc != nil && (pools == nil || fresh(pools)) && (forall i int :: 0 <= i && i < len(pools) ==> Pinned(a, svc, pools[i]))
+//@   loop 2 invariant svc != nil && (pools == nil || fresh(pools)) && (forall i int :: 0 <= i && i < len(pools) ==> Pinned(a, svc, pools[i]))
+//@   assert before append#1: [ns1] Pinnable(nsPool)
+//@   assert before append#1: [ns2] (nsPool.Name in a.pools.ByName) && a.pools.ByName[nsPool.Name] == nsPool
+//@   assert before append#1: [ns3] nsPool.AutoAssign && PoolAdmits(nsPool, svc)
+//@   assert before append#1: [nsOK] Pinned(a, svc, nsPool)
+//@   assert before append#2: [selOK] Pinned(a, svc, svcPool)
+//@   assert before sortPools: [ok] PinnedOK(pools)
+//@   assert after sortPools: [still] forall i int :: 0 <= i && i < len(pools) ==> Pinned(a, svc, pools[i])
+
+// AllocatorOK: everything an allocation entry point needs of the allocator and its configuration.
+//@ pred AllocatorOK(a *Allocator) := Inv(a) && a.countersChangedCallback != nil && PoolsIndexOK(a.pools)
+
+// AutoPool: p is a configured pool automatic allocation may draw from.
+//@ pred AutoListed(a *Allocator, ips []net.IP) := exists n string :: (n in a.pools.ByName) && a.pools.ByName[n].AutoAssign
+//@     && (forall k int :: 0 <= k && k < len(ips) ==> InCIDRs(a.pools.ByName[n], ips[k]))
+
+//@ func (*Allocator).Allocate
+//@   modifies map[string]*alloc, map[Port]string, map[string]bool, map[string]int, map[string]PoolCounters, fresh *ipaddr.Prefix, fresh *ipaddr.Cursor, fresh *ipaddr.Position, fresh []ipaddr.Prefix, gint("cursor.pos"), fresh []string, fresh []interface{}, fresh *alloc, fresh []Port, fresh *key, fresh *Allocation, fresh []net.IP, fresh []*config.Pool
+//@   requires AllocatorOK(a) && svc != nil && PortsOK(ports)
+//@   ensures Inv(a)
+//@   ensures [others] forall s string :: s != svcKey ==> a.allocated[s] == old(a.allocated[s])
+//@   ensures [unchangedOnError] result1 != nil ==> result0 == nil && (forall s string :: a.allocated[s] == old(a.allocated[s]))
+//@   ensures [assigned] result1 == nil ==> AssignedOK(a, svcKey, svc, result0, ports, sharingKey, backendKey)
+//@   ensures [keeps] result1 == nil && old(a.allocated[svcKey]) != nil ==> sameSlice(result0, old(a.allocated[svcKey].ips))
+//@   ensures [auto] result1 == nil && old(a.allocated[svcKey]) == nil ==> AutoListed(a, result0)
+//@   ensures [poolsSame] a.pools == old(a.pools) && (forall n string :: (n in a.pools.ByName) == old(n in a.pools.ByName) && a.pools.ByName[n] == old(a.pools.ByName[n]))
+//@   loop 1 invariant (allPools == nil || fresh(allPools)) && (forall i int :: 0 <= i && i < len(allPools) ==>
+//@       allPools[i] != nil && allPools[i].AutoAssign && (allPools[i].Name in a.pools.ByName) && a.pools.ByName[allPools[i].Name] == allPools[i] && PoolCIDRsOK(allPools[i]))
+//@   loop 1 invariant Inv(a) && (forall s string :: a.allocated[s] == old(a.allocated[s]))
+//@   loop 1 invariant forall n string :: n in visited ==> n in a.pools.ByName
+
+// InNamedPool: every address lies in a CIDR of the configured pool called name.
+//@ pred InNamedPool(a *Allocator, name string, ips []net.IP) := (name in a.pools.ByName) &&
+//@     (forall k int :: 0 <= k && k < len(ips) ==> InCIDRs(a.pools.ByName[name], ips[k]))
+
+//@ func (*Allocator).AllocateFromPool
+//@   modifies map[string]*alloc, map[Port]string, map[string]bool, map[string]int, map[string]PoolCounters, fresh *ipaddr.Prefix, fresh *ipaddr.Cursor, fresh *ipaddr.Position, fresh []ipaddr.Prefix, gint("cursor.pos"), fresh []string, fresh []interface{}, fresh *alloc, fresh []Port, fresh *key, fresh *Allocation, fresh []net.IP
+//@   requires AllocatorOK(a) && svc != nil && PortsOK(ports)
+//@   ensures Inv(a)
+//@   ensures [others] forall s string :: s != svcKey ==> a.allocated[s] == old(a.allocated[s])
+//@   ensures [unchangedOnError] result1 != nil ==> result0 == nil && (forall s string :: a.allocated[s] == old(a.allocated[s]))
+//@   ensures [assigned] result1 == nil ==> AssignedOK(a, svcKey, svc, result0, ports, sharingKey, backendKey)
+//@   ensures [keeps] result1 == nil && old(a.allocated[svcKey]) != nil ==> sameSlice(result0, old(a.allocated[svcKey].ips))
+//@   ensures [fromPool] result1 == nil && old(a.allocated[svcKey]) == nil ==> InNamedPool(a, poolName, result0)
+//@   ensures [poolsSame] a.pools == old(a.pools) && (forall n string :: (n in a.pools.ByName) == old(n in a.pools.ByName) && a.pools.ByName[n] == old(a.pools.ByName[n]))
+
+//@ func (*Allocator).AllocateFromPoolForAdditionalFamily
+//@   modifies map[string]*alloc, map[Port]string, map[string]bool, map[string]int, map[string]PoolCounters, fresh *ipaddr.Prefix, fresh *ipaddr.Cursor, fresh *ipaddr.Position, fresh []ipaddr.Prefix, gint("cursor.pos"), fresh []string, fresh []interface{}, fresh *alloc, fresh []Port, fresh *key, fresh *Allocation, fresh []net.IP
+//@   requires AllocatorOK(a) && svc != nil && PortsOK(ports)
+//@   ensures Inv(a)
+//@   ensures [others] forall s string :: s != svcKey ==> a.allocated[s] == old(a.allocated[s])
+//@   ensures [unchangedOnError] result1 != nil ==> result0 == nil && (forall s string :: a.allocated[s] == old(a.allocated[s]))
+//@   ensures [pair] result1 == nil ==> result0 != nil && a.allocated[svcKey] != nil && len(a.allocated[svcKey].ips) == 2
+//@       && a.allocated[svcKey].ips[0] == existingIP && a.allocated[svcKey].ips[1] == result0 && net.is4(result0) != net.is4(existingIP)
+//@   ensures [fromPool] result1 == nil ==> (poolName in a.pools.ByName) && InCIDRs(a.pools.ByName[poolName], result0)
 //@   ensures [poolsSame] a.pools == old(a.pools) && (forall n string :: (n in a.pools.ByName) == old(n in a.pools.ByName) && a.pools.ByName[n] == old(a.pools.ByName[n]))
